@@ -28,6 +28,8 @@ ASSUMPTIONS = [
 ]
 REQUIRED = {'recompile-after-change': 0.3, 'prior-mode-mismatch': 0.08, 'derived-toggled': 0.2, 'has-update': 0.3,
             'unknown-name': 0.1}
+# coverage-guided extra (thorough tier): pure-Python taurex modules on this property's path, instrumented by atheris
+FUZZ = {'include': ['taurex.optimizer.optimizer', 'taurex.core', 'taurex.data.fittable'], 'runs': 12000, 'workers': 4}
 
 PRIORS = ['Uniform', 'LogUniform', 'Gaussian', 'LogGaussian']
 OPS = ['enable_fit', 'compile', 'set_boundary', 'set_mode', 'set_prior', 'update', 'disable_fit', 'set_factor_boundary',
@@ -42,7 +44,7 @@ def _op_of(draw, kind):
 @st.composite
 def _op(draw, kind=None):
     op = kind or draw(st.sampled_from(OPS))
-    d = {'op': op, 'p': draw(st.integers(0, 11))}
+    d = {'op': op, 'p': draw(S.ints(0, 11))}
     if op == 'set_mode':
         d['mode'] = draw(st.sampled_from(['log', 'linear', 'LOG', 'Linear']))
     elif op == 'set_boundary':
@@ -71,10 +73,10 @@ SETTING_OPS = ['set_prior', 'enable_fit', 'set_boundary', 'set_mode', 'enable_fi
 @st.composite
 def _case(draw):
     """a history in phases: settings ..., compile, [update], [compile] - so that settings change after a compile"""
-    nph = draw(st.integers(2, 4))
+    nph = draw(S.ints(2, 4))
     ops = []
     for _ in range(nph):
-        k = draw(st.integers(1, 7))
+        k = draw(S.ints(1, 7))
         for _ in range(k):
             o = draw(_op())
             if o['op'] in ('compile', 'update'):
